@@ -31,13 +31,22 @@ META = {
         "(anglenum, angle) passed to set_dihedral_angle, every rotation angle passed to quatfit.qchichange and the final residue.dihedrals "
         "bit for bit. NOT proved: that the motion applied is a rotation about the axis (C15's theorems rot_isometry / rot_fixes_axis over R; "
         "float rounding unverified); that no other code writes input heavy atoms, and the no-op modes (observed by the monitor on real runs); "
-        "the flip path (hydrogens/structures.py) is covered by the monitor and geometry oracle only. Inter-residue S-S bonds are outside the lemma."
+        "The FLIP path (hydrogens/structures.py Flip.__init__/fix_flip/finalize/complete, Model/Flip.v) is modelled on residue.atoms as a list of "
+        "(name, is-*FLIP, position): proved for ALL residues, rotated sets, motions and ALL sequences of fix_flip/finalize calls that the result is "
+        "EITHER exactly the input coordinates OR the input with the WHOLE rotated set moved (never a mixture, no *FLIP atom left); over R with the "
+        "rotation cos=-1, sin=0 about a non-degenerate b-c bond both outcomes keep every bond length and 1-3 distance (graph conditions from the "
+        "generated table over every template carrying a Flip optangle of HYDROGENS.xml) and the rotation is an involution. The model is tied to the "
+        "code on every Flip object of the real runs (residue.atoms after __init__ and after complete, bit for bit, with the code's own cos/sin/norm "
+        "values as oracle inputs; the rotation angle must be (180.0 + d) - d). Binary64: cos(pi) = -1.0 exactly, sin(pi) = 1.22e-16, so a double flip "
+        "returns within ~4e-15 A (measured each run: coverage.flip_round_trip_max_abs_deviation_A), not exactly. 'No Flip object with --noopt / --clean / "
+        "--assign-only' is observed by the monitor, not proved. Inter-residue S-S bonds are outside the lemma."
     ),
     "level_note": (
         "Trusted: Coq kernel+vm_compute; generators gen/topology.py, gen/moves_table.py; hand models Model/Moves.v and Model/Debump.v (tied by "
         "differential execution); Model.Debump.check_debump (the in-Coq comparison of model and code traces); the monitor (monkeypatches "
-        "Atom.__setattr__, Debump.set_dihedral_angle, Debump.score_dihedral_angle, Debump.find_residue_conflicts, quatfit.qchichange on harness "
-        "objects only); float rounding of the rotation is not verified (geometry compared with 1e-6 tolerance)."
+        "Atom.__setattr__, Debump.set_dihedral_angle, Debump.score_dihedral_angle, Debump.find_residue_conflicts, quatfit.qchichange, "
+        "Flip.__init__/fix_flip/finalize/complete on harness objects only); gen/flip_table.py (Flip definitions through hydrogens.create_handler); "
+        "Model.Flip.check_flip (in-Coq comparison); libm cos/sin and numpy norm of the flip rotation are oracle values; float rounding of the rotation is not verified (geometry compared with 1e-6 tolerance)."
     ),
     "design_ref": "DESIGN.md 4 C04",
 }
@@ -59,6 +68,11 @@ THEOREMS = [
     "C04_debump_net_rotation",
     "C04_debump_attempt_ends_at_bestangle",
     "C04_debump_nonvacuous",
+    "C04_flip_all_or_nothing",
+    "C04_flip_rigid",
+    "C04_flip_involution",
+    "C04_flip_table",
+    "C04_flip_nonvacuous",
 ]
 
 # real numbers are used only by the net-rotation theorems (angles modulo 360 over R)
@@ -194,8 +208,15 @@ QUICK = [
     ("1AJJ.pdb", ["--ff=AMBER"], False, "alphabetical"),
     ("cterm_hid.pdb", ["--ff=PARSE"], False, "alphabetical"),
     ("1AJJ.pdb", ["--ff=AMBER"], False, "del-interior"),
+    # flips: amide/imidazole groups written the other way round, and a mode without optimisation
+    ("1K1I.pdb", ["--ff=AMBER"], False, "preflipped"),
+    ("1BX8.pdb", ["--ff=PARSE"], False, "preflipped"),
+    ("1A1P.pdb", ["--ff=AMBER", "--noopt"], False),
 ]
 THOROUGH = QUICK + [
+    ("1AFS.pdb", ["--ff=AMBER"], False, "preflipped"),
+    ("1A1P.pdb", ["--ff=AMBER"], False, "preflipped"),
+    ("cterm_hid.pdb", ["--ff=AMBER"], False, "preflipped"),
     ("1BX8.pdb", ["--ff=CHARMM"], False, "alphabetical"),
     ("1A1P.pdb", ["--ff=PARSE"], False, "alphabetical"),
     ("cterm_hid.pdb", ["--ff=AMBER"], False, "del-interior"),
@@ -256,6 +277,16 @@ def transform_pdb(text, transform):
         grp = lines[i:j]
         if transform == "alphabetical":
             grp = sorted(grp, key=lambda l: l[12:16].strip())
+        elif transform == "preflipped":
+            # the amide / imidazole written the other way round (coordinates exchanged): where the deposited
+            # orientation had the hydrogen bonds, the optimiser now prefers the FLIPPED form
+            swaps = {"ASN": [("OD1", "ND2")], "GLN": [("OE1", "NE2")], "HIS": [("ND1", "CD2"), ("CE1", "NE2")]}.get(ln[17:20], [])
+            byname = {l[12:16].strip(): k for k, l in enumerate(grp)}
+            for x, y in swaps:
+                if x in byname and y in byname:
+                    lx, ly = grp[byname[x]], grp[byname[y]]
+                    grp[byname[x]] = lx[:30] + ly[30:54] + lx[54:]
+                    grp[byname[y]] = ly[:30] + lx[30:54] + ly[54:]
         elif transform == "del-interior":
             victim = INTERIOR.get(ln[17:20])
             names = [l[12:16].strip() for l in grp]
@@ -341,6 +372,8 @@ def real_run(ctx, pdb, extra, transform=None):
     pdebump.Debump.set_dihedral_angle = w_sda
     pstruct.Atom.__setattr__ = w_setattr
     pmain.setup_molecule = w_setup
+    flips = []
+    undo_flip = install_flip_monitor(flips, orig_key, input_ids)
     err = None
     bio = None
     try:
@@ -348,6 +381,7 @@ def real_run(ctx, pdb, extra, transform=None):
     except BaseException as e:  # noqa
         err = f"{type(e).__name__}: {e}"
     finally:
+        undo_flip()
         pdebump.Debump.set_dihedral_angle = orig_sda
         pdebump.Debump.debump_residue = orig_debump
         pmain.setup_molecule = orig_setup
@@ -357,7 +391,7 @@ def real_run(ctx, pdb, extra, transform=None):
             del pstruct.Atom.__setattr__
     for f in d.glob("g.*"):
         f.unlink()
-    return {"calls": calls, "writes": writes, "initial": initial, "bio": bio, "err": err, "orig_key": orig_key, "debump_ties": real_ties}
+    return {"calls": calls, "writes": writes, "initial": initial, "bio": bio, "err": err, "orig_key": orig_key, "debump_ties": real_ties, "flips": flips}
 
 
 BACKBONE_CAP = {"N", "CA", "C", "O", "OXT"}
@@ -1018,6 +1052,235 @@ def storage_order_correspondence(ctx, definition, mlabels, model_template_order)
     return broken
 
 
+# ---- the flip path: hydrogens/structures.py Flip (Model/Flip.v) -----------------------------
+
+
+def install_flip_monitor(records, orig_key=None, input_ids=None):
+    """Wrap Flip.__init__/fix_flip/finalize/complete (class level, undone by the returned function).
+    One record per Flip object: the residue before __init__, the rotation the code applied (arguments of
+    quatfit.qchichange), residue.atoms after __init__, every fix_flip/finalize call, residue.atoms after the
+    last finalize/complete.  The *FLIP atoms are created at the cached INPUT coordinates: they are registered
+    under the key of the input atom they stand for, so that the geometry oracle follows them."""
+    import numpy as np
+
+    from pdb2pqr import quatfit as pquat
+    from pdb2pqr.hydrogens import structures as hs
+
+    o_init, o_fix, o_fin, o_comp = hs.Flip.__init__, hs.Flip.fix_flip, hs.Flip.finalize, hs.Flip.complete
+
+    def snap(residue):
+        return [(a.name, (float(a.x), float(a.y), float(a.z))) for a in residue.atoms]
+
+    def w_init(self, residue, optinstance, routines):
+        names = optinstance.optangle.split()
+        rec = {"residue": str(residue), "resname": residue.name, "optangle": optinstance.optangle, "is_c_term": bool(residue.is_c_term), "ops": [], "in_complete": False, "err": None}
+        try:
+            rec["atoms0"] = snap(residue)
+            rec["M"] = list(residue.get_moveable_names(names[2]))
+            rec["b"] = tuple(map(float, residue.get_atom(names[1]).coords))
+            rec["c"] = tuple(map(float, residue.get_atom(names[2]).coords))
+            rec["dihedral0"] = float(residue.dihedrals[residue.reference.dihedrals.index(optinstance.optangle)])
+            rec["bonds"] = {a.name: [x.name for x in a.bonds if residue.map.get(x.name) is x] for a in residue.atoms}
+        except Exception as e:  # noqa
+            rec["err"] = f"before __init__: {type(e).__name__}: {e}"
+        rot = []
+        orig_q = pquat.qchichange
+
+        def qchi(initcoords, refcoords, angle):
+            rot.append(([float(x) for x in initcoords], float(angle)))
+            return orig_q(initcoords, refcoords, angle)
+
+        pquat.qchichange = qchi
+        before_objs = {a.name: a for a in residue.atoms}
+        try:
+            o_init(self, residue, optinstance, routines)
+        finally:
+            pquat.qchichange = orig_q
+        rec["rot"] = rot
+        rec["atoms1"] = snap(residue)
+        rec["final"] = None
+        if rot:
+            init, angle = rot[0]
+            rad = math.pi * angle / 180.0
+            rec["oracle"] = (float(np.linalg.norm(init)), math.cos(rad), math.sin(rad), angle)
+        if orig_key is not None:
+            for a in residue.atoms:
+                if a.name.endswith("FLIP") and a.name[:-4] in before_objs and id(before_objs[a.name[:-4]]) in orig_key:
+                    orig_key[id(a)] = orig_key[id(before_objs[a.name[:-4]])]
+                    input_ids[id(a)] = a
+        self._c04rec = rec
+        records.append(rec)
+
+    def w_fix(self, bondatom):
+        rec = getattr(self, "_c04rec", None)
+        if rec is not None:
+            r = bondatom.residue
+            rec["ops"].append(["fix", bool(bondatom.name.endswith("FLIP")), bool(r.has_atom(bondatom.name) and r.get_atom(bondatom.name) is bondatom)])
+        o_fix(self, bondatom)
+        if rec is not None:
+            rec["final"] = snap(self.residue)
+            rec["fixed"] = bool(self.residue.fixed)
+
+    def w_fin(self):
+        rec = getattr(self, "_c04rec", None)
+        if rec is not None and not rec["in_complete"]:
+            rec["ops"].append(["finalize"])
+        o_fin(self)
+        if rec is not None:
+            rec["final"] = snap(self.residue)
+            rec["fixed"] = bool(self.residue.fixed)
+
+    def w_comp(self):
+        rec = getattr(self, "_c04rec", None)
+        if rec is not None:
+            rec["in_complete"] = True
+        try:
+            o_comp(self)
+        finally:
+            if rec is not None:
+                rec["in_complete"] = False
+                rec["completed"] = True
+                rec["final"] = snap(self.residue)
+                rec["fixed"] = bool(self.residue.fixed)
+                rec["wasFlipped"] = bool(getattr(self.residue, "wasFlipped", False))
+
+    hs.Flip.__init__, hs.Flip.fix_flip, hs.Flip.finalize, hs.Flip.complete = w_init, w_fix, w_fin, w_comp
+
+    def undo():
+        hs.Flip.__init__, hs.Flip.fix_flip, hs.Flip.finalize, hs.Flip.complete = o_init, o_fix, o_fin, o_comp
+
+    return undo
+
+
+FLIP_HEADER = (
+    "From Coq Require Import List String Bool PArith ZArith PrimFloat.\n"
+    "From PV Require Import Model.ForceField Model.Moves Model.Quatfit Model.Flip.\nImport ListNotations.\n"
+)
+
+
+def flip_term(rec):
+    """Model.Flip.check_flip on one observed Flip object (all floats exact)."""
+    ids = {}
+
+    def I(n):
+        return f"{ids.setdefault(n, len(ids) + 1)}%positive"
+
+    def pt(p):
+        return f"({core.float_hex(p[0])}, {core.float_hex(p[1])}, {core.float_hex(p[2])})"
+
+    def atoms(l):
+        out = []
+        for n, p in l:
+            fl = n.endswith("FLIP")
+            out.append(f"(mkfatom {I(n[:-4] if fl else n)} {'true' if fl else 'false'} {pt(p)})")
+        return core.coq_list(out)
+
+    nrm, c, s, angle = rec["oracle"]
+    M = rec["M"]
+    Mc = [n for n in M if not (rec["is_c_term"] and n == "HO")]
+    ops = core.coq_list([f"(FixFlip {'true' if o[1] else 'false'})" if o[0] == "fix" else "Finalize" for o in rec["ops"]])
+    final = rec["final"] if rec["final"] is not None else rec["atoms1"]
+    # a Flip object that was never finalised nor completed: the model's complete() would clean up, the code did not
+    return (
+        f"check_flip {core.float_hex(nrm)} {core.float_hex(c)} {core.float_hex(s)} {pt(rec['b'])} {pt(rec['c'])} "
+        f"{core.coq_list([I(n) for n in M])} {core.coq_list([I(n) for n in Mc])} {atoms(rec['atoms0'])} {ops} "
+        f"{atoms(rec['atoms1'])} {atoms(final)} {'true' if rec.get('fixed') else 'false'} "
+        f"{core.float_hex(rec['dihedral0'])} {core.float_hex(angle)}"
+    )
+
+
+def flip_oracle(ctx, rec, label):
+    """Model-independent: after the Flip object is done the residue has no *FLIP atom, every atom outside the
+    rotated set has exactly its input coordinates, and the heavy atoms of the rotated set are EITHER all at their
+    input coordinates OR all where the rotation of __init__ put them; bond lengths / 1-3 distances among the
+    residue's heavy atoms are those of the input."""
+    final = rec["final"]
+    if final is None or rec.get("err"):
+        return
+    inp = dict(rec["atoms0"])
+    rot = {n: p for n, p in rec["atoms1"] if not n.endswith("FLIP")}
+    fin = {}
+    for n, p in final:
+        fin.setdefault(n, p)
+    case = {"flip": {k: rec[k] for k in ("residue", "optangle", "ops")}, "label": label}
+    sig = {"site": "hydrogens.structures.Flip", "residue": rec["resname"]}
+    left = [n for n in fin if n.endswith("FLIP")]
+    heavyM = [n for n in rec["M"] if not n.startswith("H") and n in inp and n in fin]
+    ctx.evaluated(("flip", label, rec["residue"]), bool(heavyM))
+    if left:
+        ctx.fail({**sig, "condition": "FLIP-atoms-left"}, f"{label}: {rec['residue']} still has {left} after the flip was decided", case)
+        return
+    for n, p in fin.items():
+        if n in inp and n not in rec["M"] and not n.startswith("H") and p != inp[n]:
+            ctx.fail({**sig, "condition": "atom-outside-the-flipped-set-moved"}, f"{label}: {rec['residue']} {n} is not rotated by the flip {rec['optangle']} but moved {math.dist(p, inp[n]):.4f} A", case)
+            return
+    same = [n for n in heavyM if fin[n] == inp[n]]
+    flipped = [n for n in heavyM if n in rot and fin[n] == rot[n] and fin[n] != inp[n]]
+    if len(same) != len(heavyM) and len(flipped) != len(heavyM):
+        other = [n for n in heavyM if n not in same and n not in flipped]
+        ctx.fail({**sig, "condition": "flip-mixture"}, f"{label}: {rec['residue']} flip {rec['optangle']}: {same} kept their input coordinates, {flipped} are rotated, {other} are neither", case)
+        return
+    ctx.count(f"flip-outcome:{rec['resname']}:{'flipped' if (flipped and len(flipped) == len(heavyM)) else 'input kept'}")
+    # rigid geometry among the heavy atoms of the residue that the input had
+    heavy = [n for n in fin if n in inp and not n.startswith("H")]
+    bonds = {tuple(sorted((u, v))) for u in heavy for v in rec.get("bonds", {}).get(u, []) if v in heavy}
+    nb = {}
+    for u, v in bonds:
+        nb.setdefault(u, set()).add(v)
+        nb.setdefault(v, set()).add(u)
+    pairs = {(p, "bond-length") for p in bonds}
+    for v, ns in nb.items():
+        ns = sorted(ns)
+        pairs |= {((ns[i], ns[j]), "bond-angle") for i in range(len(ns)) for j in range(i + 1, len(ns)) if (ns[i], ns[j]) not in bonds}
+    for (u, v), kind in sorted(pairs):
+        d0, d1 = math.dist(inp[u], inp[v]), math.dist(fin[u], fin[v])
+        if abs(d0 - d1) > 1e-6:
+            ctx.fail({**sig, "condition": f"{kind}-changed"}, f"{label}: {rec['residue']} after the flip {rec['optangle']}: {u}-{v} distance {d0:.5f} -> {d1:.5f}", case)
+            return
+
+
+def compare_flip_ties(ctx, recs):
+    """(label, record) list -> Model.Flip.check_flip verdicts; also measures what binary64 does to a double flip."""
+    good = [(lab, r) for lab, r in recs if not r.get("err") and r.get("oracle")]
+    for lab, r in recs:
+        if r.get("err") or not r.get("oracle"):
+            ctx.cov["correspondence_disagreements"] += 1
+            ctx.broke("correspondence-broken", "Model.Flip vs hydrogens.structures.Flip: the monitor could not follow Flip.__init__", f"{lab} {r['residue']}: {r.get('err') or 'no rotation observed in Flip.__init__'}", {"flip": {"residue": r["residue"]}, "label": lab})
+    if not good:
+        return
+    try:
+        outs = core.run_cases("C04f", FLIP_HEADER, [flip_term(r) for _, r in good], chunk=max(4, (len(good) + 7) // 8))
+    except core.CoqEvalError as e:
+        ctx.broke("correspondence-broken", "Model.Flip vs hydrogens.structures.Flip: model evaluation failed", str(e)[-1500:])
+        return
+    nbad = 0
+    worst = 0.0
+    from pdb2pqr import quatfit as pquat
+
+    for (lab, r), o in zip(good, outs):
+        ctx.cov["correspondence_cases"] += 1
+        ctx.count("flip-tie:Flip objects compared")
+        ctx.count("flip-tie:atoms compared (after __init__ and after complete)", len(r["atoms1"]) + len(r["final"] or []))
+        ctx.count("flip-tie:ops:" + (",".join("fix-FLIP" if (x[0] == "fix" and x[1]) else ("fix-plain" if x[0] == "fix" else "finalize") for x in r["ops"]) or "none"))
+        if o != "OK":
+            ctx.cov["correspondence_disagreements"] += 1
+            nbad += 1
+            if nbad <= 3:
+                ctx.broke("correspondence-broken", "Model.Flip (flip_init/fix_flip/finalize/complete) vs hydrogens.structures.Flip", f"{lab} {r['residue']} {r['optangle']}: {o}", {"flip": {"residue": r["residue"], "optangle": r["optangle"], "ops": r["ops"]}, "label": lab})
+        # binary64: rotate the set twice with the code's own qchichange and measure the round trip
+        try:
+            init, angle = r["rot"][0]
+            inp = dict(r["atoms0"])
+            pts = [[inp[n][k] - r["b"][k] for k in range(3)] for n in r["M"] if n in inp]
+            twice = pquat.qchichange(init, pquat.qchichange(init, pts, angle), angle)
+            worst = max([worst] + [abs(float(q[k]) - p[k]) for p, q in zip(pts, twice) for k in range(3)])
+        except Exception:  # noqa
+            pass
+    ctx.cov["flip_round_trip_max_abs_deviation_A"] = worst
+    lab, r = good[0]
+    ctx.sample({"flip_tie": {"run": lab, "residue": r["residue"], "optangle": r["optangle"], "moved": r["M"], "ops": r["ops"], "angle_passed": r["oracle"][3], "cos_sin": list(r["oracle"][1:3]), "verdict": outs[0]}})
+
+
 def call_term(c, ids):
     def I(n):
         return ids.setdefault(n, len(ids) + 1)
@@ -1038,7 +1301,8 @@ def run(ctx):
         "Definition.map) vs the Coq model, in template order, reversed and alphabetical order (model evaluated on rev_graph/sort_graph, exact list) and "
         "3 (thorough 12) random permutations of residue.atoms and of every atom.bonds (same set as the model, listed in the permuted order); real runs also on "
         "inputs rewritten with alphabetical atom order within residues and with interior side-chain atoms (CG/CG1) deleted so that repair_heavy rebuilds and "
-        "appends them; ~30% of the debump walks on a residue whose atoms/bonds lists are shuffled, ~25% on a residue with an interior atom rebuilt by the real repair_heavy; every Debump.set_dihedral_angle call of real runs replayed in the model; every input heavy atom of real runs "
+        "appends them, and with ASN/GLN/HIS written the other way round ('preflipped': O/N resp. ring atoms exchanged, so that the optimiser flips them back); every Flip "
+        "object of every real run is followed from __init__ to complete() (flip_oracle: all-or-nothing + rigid; tie with Model.Flip); ~30% of the debump walks on a residue whose atoms/bonds lists are shuffled, ~25% on a residue with an interior atom rebuilt by the real repair_heavy; every Debump.set_dihedral_angle call of real runs replayed in the model; every input heavy atom of real runs "
         "checked (exact for backbone/caps/no-op modes, rigid geometry otherwise). Debump walks: debump_residue on a random real residue of 1AJJ "
         "(80% with >= 2 side-chain dihedrals) with a random script of 1-10 attempts (modes none/improve/improve2/tie/zero-conflict/zero-clear at steps "
         "1,2,17,35,36,70,71, random conflict names); each walk is checked by the geometry oracle AND compared with Model.Debump.debump_residue on the "
@@ -1046,7 +1310,7 @@ def run(ctx):
         "pair with a non-empty moved set, a distinct observed call, a distinct input heavy atom of a run, or a walk with >= 2 attempts, >= 1 accepted "
         "and moved atoms"
     )
-    gen_ok = c01.regenerate(ctx, "ff_tables,topology,moves_table")
+    gen_ok = c01.regenerate(ctx, "ff_tables,topology,moves_table,flip_table")
     ok = core.proof_stage(ctx, "C04", THEOREMS, ALLOWED_AXIOMS) if gen_ok else False
     if not gen_ok:
         ctx.obligations.extend(THEOREMS)
@@ -1090,6 +1354,7 @@ def run(ctx):
     inputs = THOROUGH if (ctx.thorough or not ok or corr_broken) else QUICK
     seen_calls = {}
     real_ties = []
+    flip_recs = []
     for pdb, extra, noop, *tr in inputs:
         transform = tr[0] if tr else None
         run_ = real_run(ctx, pdb, extra, transform)
@@ -1113,6 +1378,19 @@ def run(ctx):
         for t in run_["debump_ties"]:
             t["case"] = {"pdb": pdb, "args": extra, "residue": t["residue"]}
             real_ties.append(t)
+        label = f"{pdb} {' '.join(extra)}"
+        ctx.count(f"real:{pdb}:Flip objects", len(run_["flips"]))
+        no_opt = any(m in extra for m in ("--noopt", "--clean", "--assign-only"))
+        if no_opt and run_["flips"]:
+            ctx.cov["correspondence_disagreements"] += 1
+            ctx.broke("correspondence-broken", "no Flip object is created with --noopt / --clean / --assign-only (main.py non_trivial: initialize_full_optimization only if args.opt)", f"{label}: {len(run_['flips'])} Flip objects created", {"pdb": pdb, "args": extra})
+        if no_opt:
+            ctx.cov["correspondence_cases"] += 1
+        for rec in run_["flips"]:
+            flip_oracle(ctx, rec, label)
+            flip_recs.append((label, rec))
+    if gen_ok:
+        compare_flip_ties(ctx, flip_recs)
     if real_ties and gen_ok:
         ctx.count("debump-tie:real debump_residue calls (real scores/conflicts)", len(real_ties))
         compare_walk_ties(ctx, real_ties, [t["case"] for t in real_ties], name="C04e", label="real runs")
